@@ -1,6 +1,8 @@
 // Engine B — executor + lock-step reference model.  One case = one forked child (see gen.cpp).
 #include <climits>
 #include <signal.h>
+#include <semaphore.h>
+#include <sys/wait.h>
 #include <algorithm>
 #include "exec.hpp"
 
@@ -22,6 +24,7 @@ extern "C" int __wrap_close(int fd) {
 #include "exec_ops2.inc"
 
 static const long tmr_period_ms[] = {1, 2, 3, 5, 20, 50};
+static sem_t task_latch[3];
 static int registry_task_fn(void *p) { (void)p; return 0; }
 
 void Exec::payload_free_hook(void *p) {
@@ -126,6 +129,7 @@ void Exec::probe(const char *where) {
         long want[M_SRC_TYPE_END] = {0}; long total = 0;
         want[M_SRC_TYPE_PS] = (long)i.subs.size(); want[M_SRC_TYPE_FD] = (long)i.fds.size(); want[M_SRC_TYPE_TMR] = (long)i.tmrs.size();
         for (auto &kv : i.other_srcs) want[kv.first]++;
+        for (auto &kv : i.live_srcs) want[kv.first.first]++;
         for (int k = 0; k < M_SRC_TYPE_END; k++) total += want[k];
         // a one-shot subscription with a message still on its way may already have been retired by the library
         long slack = 0;
@@ -134,6 +138,9 @@ void Exec::probe(const char *where) {
             ssize_t got = m_mod_src_len(h, (m_src_types)k);
             long w = k == M_SRC_TYPE_END ? total : want[k];
             if ((k == M_SRC_TYPE_PS || k == M_SRC_TYPE_END) && got >= w - slack && got <= w) continue;
+            // a one-shot live source whose kernel object became ready may already have been retired when its event was read
+            long lslack = 0; for (auto &kv : i.live_srcs) if ((kv.first.first == k || k == M_SRC_TYPE_END) && kv.second.oneshot && (kv.second.fired || kv.first.first == M_SRC_TYPE_THRESH)) lslack++;
+            if (k >= M_SRC_TYPE_SGN && got >= w - lslack - (k == M_SRC_TYPE_END ? slack : 0) && got <= w) continue;
             if (got != w) { fail("C09.5", "after " + std::string(where) + ": m_mod_src_len(" + iname(&i) + ", kind " + std::to_string(k) + ") = " + std::to_string(got) + ", the module has " + std::to_string(w) + " such sources registered"); return; }
         }
     }
@@ -257,7 +264,7 @@ void Exec::do_op3(const Op &op, bool top, Inst *S, Inst *T, bool deny) {
         } else {
             int r = m_mod_src_deregister_tmr(handle(S), &its);
             if (!legal) { RET_ILLEGAL("C01.2", "m_mod_src_deregister_tmr", r); break; }
-            if (present) { RET_LEGAL("C09.2", "m_mod_src_deregister_tmr of a registered timer", r); if (S->tmrs.size() >= 2) nt["C09"] = true; S->tmrs.erase(idx); }
+            if (present) { RET_LEGAL("C09.2", "m_mod_src_deregister_tmr of a registered timer", r); if (S->tmrs.size() >= 2) nt["C09"] = true; S->retired_tokens.insert(S->tmrs[idx].token); S->tmrs.erase(idx); }
             else RET_ILLEGAL("C09.3", "m_mod_src_deregister_tmr of a timer that is not registered", r);
         }
         break; }
@@ -266,7 +273,8 @@ void Exec::do_op3(const Op &op, bool top, Inst *S, Inst *T, bool deny) {
         observe_pre();
         if (!S || !handle(S)) break;
         if (skip_if_deny()) break;
-        if (P.profile != "registry" || S->state != M_MOD_IDLE) { counters_skipped++; break; }
+        if (P.profile != "registry") { live_src_op(op, S); break; }
+        if (S->state != M_MOD_IDLE) { counters_skipped++; break; }
         int kind = (int)op.a; long ki = op.b;
         if (kind < M_SRC_TYPE_FD || kind > M_SRC_TYPE_THRESH) break;
         bool invalid = ki >= 90;
@@ -307,6 +315,9 @@ void Exec::do_op3(const Op &op, bool top, Inst *S, Inst *T, bool deny) {
             else if (r >= 0) fail("C09.3", what + " which is not registered returned " + std::to_string(r));
         }
         break; }
+    case prog::O_SRC_FIRE: live_fire(op); break;
+    case prog::O_TASK_RELEASE: { long ki = ((op.a % 3) + 3) % 3; sem_post(&task_latch[ki]);
+        for (auto &i : insts) { auto it = i.live_srcs.find({M_SRC_TYPE_TASK, ki}); if (it != i.live_srcs.end()) it->second.fired = true; } if (task_started[ki]) { struct timespec ts = {0, 3000000}; nanosleep(&ts, nullptr); } break; }
     case prog::O_SET_TB: {
         observe_pre();
         if (!S || !handle(S)) break;
@@ -399,6 +410,81 @@ void Exec::run_blocking_loop(const Op &op, size_t next_op) {
     probe("loop");
 }
 
+// ---- live sources: signals, paths, pids, tasks, thresholds backed by real kernel objects (C03, C09-live, C20) ----
+static int live_task_fn(void *p) { long k = (long)p - 0x5000; if (k >= 0 && k < 3) { while (sem_wait(&task_latch[k]) != 0) {} } return (int)(k * 3 + 1); }
+static int live_signals[3] = {SIGUSR1, SIGUSR2, SIGRTMIN + 3};
+pid_t g_live_kids[3]; int g_live_signals[3];
+
+void Exec::live_setup() {
+    live_signals[2] = SIGRTMIN + 3; for (int k = 0; k < 3; k++) { g_live_signals[k] = live_signals[k]; g_live_kids[k] = 0; }
+    sigset_t m; sigemptyset(&m); for (int s : live_signals) sigaddset(&m, s); sigprocmask(SIG_BLOCK, &m, nullptr); // never let them hit the default action
+    char tmpl[] = "/var/tmp/lmv-actor-XXXXXX"; tmpdir = mkdtemp(tmpl) ? tmpl : "";
+    for (int k = 0; k < 3; k++) { if (!tmpdir.empty()) mkdir((tmpdir + "/d" + std::to_string(k)).c_str(), 0700); sem_init(&task_latch[k], 0, 0); }
+}
+void Exec::live_teardown() {
+    for (int k = 0; k < 3; k++) { if (kids[k] > 0) { kill(kids[k], SIGKILL); waitpid(kids[k], nullptr, 0); kids[k] = 0; } for (int j = 0; j < 4; j++) sem_post(&task_latch[k]); }
+    if (!tmpdir.empty()) { std::string cmd = "rm -rf '" + tmpdir + "'"; if (system(cmd.c_str())) {} tmpdir.clear(); }
+    // consume signals left pending so that they cannot leak anywhere
+    sigset_t m; sigemptyset(&m); for (int s : live_signals) sigaddset(&m, s);
+    struct timespec zero = {0, 0}; while (sigtimedwait(&m, nullptr, &zero) > 0) {}
+}
+bool Exec::live_key_elsewhere(Inst *S, int kind, long ki) { for (auto &i : insts) if (&i != S && i.live_srcs.count({kind, ki})) return true; return false; }
+
+void Exec::live_src_op(const Op &op, Inst *S) {
+    int kind = (int)op.a; long ki = ((op.b % 3) + 3) % 3;
+    if (kind < M_SRC_TYPE_SGN || kind > M_SRC_TYPE_THRESH) return;
+    if (!mod_ok(this, S) || S->tb_on) { counters_skipped++; return; }
+    bool reg = op.code == prog::O_SRC_REG;
+    auto key = std::make_pair(kind, ki);
+    bool present = S->live_srcs.count(key);
+    // a signal number / pid / task id is watched by at most one module at a time (one kernel object delivers once)
+    if (reg && !present && live_key_elsewhere(S, kind, ki)) { counters_skipped++; return; }
+    if (kind == M_SRC_TYPE_TASK && reg && (present || task_used[ki])) { counters_skipped++; return; } // each latched task runs once per case
+    long token = 0x5000 + ki; if (kind != M_SRC_TYPE_TASK) token = 0x6000 + next_token++;
+    int lf = 0; bool oneshot = kind == M_SRC_TYPE_TASK || kind == M_SRC_TYPE_THRESH;
+    if (kind == M_SRC_TYPE_PID) oneshot = oneshot || true; // a process exits once; keep the model simple: registered one-shot
+    if (kind == M_SRC_TYPE_PID) lf |= M_SRC_ONESHOT;
+    int r = 0;
+    static std::string paths[3];
+    switch (kind) {
+    case M_SRC_TYPE_SGN: { m_src_sgn_t t = {(unsigned)live_signals[ki]}; r = reg ? m_mod_src_register_sgn(handle(S), &t, (m_src_flags)lf, (void *)token) : m_mod_src_deregister_sgn(handle(S), &t); break; }
+    case M_SRC_TYPE_PATH: { if (tmpdir.empty()) return; paths[ki] = tmpdir + "/d" + std::to_string(ki); m_src_path_t t = {paths[ki].c_str(), 0x100 /* IN_CREATE */}; r = reg ? m_mod_src_register_path(handle(S), &t, (m_src_flags)(lf | M_SRC_DUP), (void *)token) : m_mod_src_deregister_path(handle(S), &t); break; }
+    case M_SRC_TYPE_PID: {
+        if (reg && !present && kids[ki] <= 0) { pid_t c = fork(); if (c == 0) { for (;;) pause(); } kids[ki] = c; g_live_kids[ki] = c; kid_dead[ki] = false; }
+        if (kids[ki] <= 0) return;
+        m_src_pid_t t = {kids[ki], 0}; r = reg ? m_mod_src_register_pid(handle(S), &t, (m_src_flags)lf, (void *)token) : m_mod_src_deregister_pid(handle(S), &t); break; }
+    case M_SRC_TYPE_TASK: { m_src_task_t t = {(int)(100 + ki), live_task_fn}; r = reg ? m_mod_src_register_task(handle(S), &t, (m_src_flags)lf, (void *)token) : m_mod_src_deregister_task(handle(S), &t); break; }
+    case M_SRC_TYPE_THRESH: { m_src_thresh_t t = {(uint64_t)(3 + ki * 4), 0}; r = reg ? m_mod_src_register_thresh(handle(S), &t, (m_src_flags)lf, (void *)token) : m_mod_src_deregister_thresh(handle(S), &t); break; }
+    }
+    std::string what = std::string(reg ? "registering" : "deregistering") + " live source kind " + std::to_string(kind) + " key #" + std::to_string(ki);
+    cls.insert("live-kind-" + std::to_string(kind));
+    if (kind == M_SRC_TYPE_TASK && !reg) { if (r >= 0) fail("C09.6", "task sources cannot be deregistered, but m_mod_src_deregister_task returned " + std::to_string(r)); return; }
+    if (reg) {
+        if (present) { if (r != -EEXIST) fail("C09.1", what + " which is already registered returned " + std::to_string(r) + ", expected -EEXIST"); cls.insert("duplicate-source-registration"); }
+        else if (r != 0) fail("C09.1", what + " returned " + std::to_string(r));
+        else {
+            LiveSrc ls; ls.kind = kind; ls.key = ki; ls.token = token; ls.oneshot = oneshot; ls.prio = PRIO_NORM;
+            S->live_srcs[key] = ls; nt["C20"] = true;
+            if (kind == M_SRC_TYPE_TASK) { task_used[ki] = true; if (S->state == M_MOD_RUNNING) task_started[ki] = true; }
+        }
+    } else {
+        if (present) { if (r != 0) fail("C09.2", what + " which is registered returned " + std::to_string(r)); else { S->retired_tokens.insert(S->live_srcs[key].token); S->live_srcs.erase(key); nt["C09"] = true; } }
+        else if (r >= 0) fail("C09.3", what + " which is not registered returned " + std::to_string(r));
+    }
+}
+
+void Exec::live_fire(const Op &op) {
+    int kind = (int)op.a; long ki = ((op.b % 3) + 3) % 3;
+    Inst *owner = nullptr; for (auto &i : insts) if (i.live_srcs.count({kind, ki})) owner = &i;
+    switch (kind) {
+    case M_SRC_TYPE_SGN: if (!owner || owner->state != M_MOD_RUNNING) return; kill(getpid(), live_signals[ki]); break; // only while somebody reads it: a pending signal would be seen by a later registration
+    case M_SRC_TYPE_PATH: { if (tmpdir.empty() || !owner || owner->state != M_MOD_RUNNING) return; std::string f = tmpdir + "/d" + std::to_string(ki) + "/f" + std::to_string(next_token++); int fd = open(f.c_str(), O_CREAT | O_WRONLY, 0600); if (fd >= 0) { harness_closing = true; close(fd); harness_closing = false; } break; }
+    case M_SRC_TYPE_PID: if (kids[ki] <= 0 || kid_dead[ki]) return; kill(kids[ki], SIGKILL); kid_dead[ki] = true; { struct timespec ts = {0, 2000000}; nanosleep(&ts, nullptr); } break;
+    default: return;
+    }
+    if (owner && owner->state == M_MOD_RUNNING && ctx.looping) { owner->live_srcs[{kind, ki}].fired = true; cls.insert("live-source-fired"); }
+}
+
 void Exec::close_harness_fds() {
     harness_closing = true;
     // a descriptor registered without auto-close (or never registered) must still be open and still be the same pipe (C20.2)
@@ -452,6 +538,7 @@ void Exec::epilogue() {
         fail("C04.4", o.str()); return;
     }
     // 6. descriptors (C20.3)
+    live_teardown();
     close_harness_fds();
     std::set<int> now_fds = open_fds();
     for (int fd : now_fds) if (!fds_before.count(fd)) {
@@ -468,6 +555,7 @@ rt::Verdict Exec::run() {
     track::install();
     track::st().error.clear();
     for (int i = 0; i < 8; i++) { harness_fd[i][0] = harness_fd[i][1] = -1; harness_fd_open[i] = false; fd_bytes[i] = 0; autoclose_pending[i] = autoclose_closed[i] = false; harness_ino[i] = 0; }
+    live_setup();
     fds_before = open_fds();
     track::st().on_free = payload_free_hook;
     t_start = now();
